@@ -46,7 +46,8 @@ pub fn observe1(v: &RVal, d: &[u8], serde_ok: bool) -> Vec<(String, String)> {
     for i in 0..=len + 1 {
         p!(format!("get_by_index({})", i), ob(jsonb::get_by_index(d, i)));
     }
-    for name in names_for(v).into_iter().take(8) {
+    let all_names = matches!(v, RVal::Obj(o) if !o.is_empty() && o.keys().all(|k| crate::checks::c05::UNICODE_CASE_KEYS.contains(&k.as_str())));
+    for name in names_for(v).into_iter().take(if all_names { 64 } else { 8 }) {
         for ic in [false, true] {
             p!(format!("get_by_name({:?},{})", name, ic), ob(jsonb::get_by_name(d, &name, ic)));
         }
@@ -203,6 +204,9 @@ pub fn corpus(tier: Tier) -> Arc<Vec<TDoc>> {
         texts.push(refmodel::text::print(v).into_bytes());
     }
     for v in refmodel::gen::keyorder_docs().iter().step_by(if tier.thorough() { 1 } else { 2 }) {
+        texts.push(refmodel::text::print(v).into_bytes());
+    }
+    for v in crate::checks::c05::case_objects().iter().step_by(if tier.thorough() { 1 } else { 3 }) {
         texts.push(refmodel::text::print(v).into_bytes());
     }
     for s in special_texts() {
